@@ -214,7 +214,8 @@ func (vc *VC) callHavoc(s *State, spec *FuncSpec, fi *FuncInfo, pre *SpecEnv) {
 				if ta != nil && ta.whole {
 					continue
 				}
-				alts := []*Term{Ge(ref, vc.entry.alloc)}
+				// a nil "location" in the callee's modifies clause denotes nothing (e.g. the slot of an absent key)
+				alts := []*Term{Ge(ref, vc.entry.alloc), Eq(ref, IntLit(0))}
 				if ta != nil {
 					for _, x := range ta.refs {
 						alts = append(alts, Eq(ref, x))
